@@ -45,10 +45,18 @@ def serviceOf (j : Json) : Service :=
   { name := getStr j "name", base := getStr j "base", methods := (getArr j "methods").map methodOf,
     headers := getStrList j "headers" }
 
+def enumValOf (v : Json) : Int × Str × Option Str :=
+  ((match v.getObjValAs? Int "number" with | .ok n => n | .error _ => 0), getStr v "name", getOptStr v "custom")
+
+def enumOf (e : Json) : EnumT :=
+  { fullName := getStr e "full"
+    hasCustom := getBool e "custom"
+    values := (getArr e "values").map enumValOf }
+
 def fileOf (j : Json) : File :=
   { name := getStr j "name", generate := getBool j "generate", goPkg := getStr j "go_pkg",
     messages := (getArr j "messages").map messageOf,
-    enums := (getArr j "enums").map (fun e => { fullName := getStr e "full", hasCustom := getBool e "custom" }),
+    enums := (getArr j "enums").map enumOf,
     services := (getArr j "services").map serviceOf }
 
 def requestOf (j : Json) : Request := { files := (getArr j "files").map fileOf }
